@@ -1,5 +1,6 @@
 /- Proofs/Fill.lean — helper lemmas for Props/C15.lean -/
 import PM.Fill
+import Proofs.DfaRun
 namespace PM
 
 /-! ### automaton basics -/
@@ -42,15 +43,6 @@ theorem Dfa.matchType_of_mem_nodup {d : Dfa} {q : Nat} {t : TypeId} {n : Nat}
     d.matchType q t = some n := by
   unfold Dfa.matchType
   rw [find?_fst_of_mem_nodup _ t n hnd h]; rfl
-
-theorem Dfa.run_append (d : Dfa) : ∀ (a : List TypeId) (q : Nat) (b : List TypeId),
-    d.run q (a ++ b) = (d.run q a).bind (fun q' => d.run q' b)
-  | [], q, b => by simp [Dfa.run]
-  | t :: a, q, b => by
-    simp only [List.cons_append, Dfa.run]
-    cases d.matchType q t with
-    | none => simp
-    | some q' => simpa using Dfa.run_append d a q' b
 
 /-- the search's stopping test at a state -/
 def fillFinished (d : Dfa) (after : List TypeId) (toEnd : Bool) (q : Nat) : Bool :=
